@@ -1782,6 +1782,19 @@ std::string expression_t::str(bool old) const
     return os.str();
 }
 
+/** The function called by a call expression: `f(..)` or, through a process, `P.f(..)`. */
+static symbol_t called_function(const expression_t& call)
+{
+    const expression_t& callee = call.get(0);
+    if (callee.get_kind() == DOT && callee.get(0).get_type().is_process()) {
+        // the members of a process type are the symbols of its template's frame
+        const auto* process = static_cast<const instance_t*>(callee.get(0).get_symbol().get_data());
+        if (process != nullptr && process->templ != nullptr && callee.get_index() < (int32_t)process->templ->frame.get_size())
+            return process->templ->frame[callee.get_index()];
+    }
+    return callee.get_symbol();
+}
+
 void expression_t::collect_possible_writes(set<symbol_t>& symbols) const
 {
     function_t* fun;
@@ -1815,7 +1828,7 @@ void expression_t::collect_possible_writes(set<symbol_t>& symbols) const
     case FUN_CALL:
     case FUN_CALL_EXT:
         // Add all symbols which are changed by the function
-        symbol = get(0).get_symbol();
+        symbol = called_function(*this);
         if ((symbol.get_type().is_function() || symbol.get_type().is_function_external()) && symbol.get_data()) {
             fun = (function_t*)symbol.get_data();
 
@@ -1848,7 +1861,7 @@ void expression_t::collect_possible_reads(set<symbol_t>& symbols, bool collectRa
 
     case FUN_CALL: {
         // Add all symbols which are used by the function
-        auto symbol = get(0).get_symbol();
+        auto symbol = called_function(*this);
         if (auto type = symbol.get_type(); type.is_function() || type.is_function_external()) {
             if (auto* data = symbol.get_data(); data) {
                 auto fun = static_cast<function_t*>(data);
